@@ -29,7 +29,7 @@ MODELS = [("c05", "Extract/ExC05.v", "run_C05")]
 # --------------------------------------------------------------------------
 # exploration (runs in worker processes)
 
-def family_of_exception(exc):
+def family_of_exception(exc, handler=None):
     """exc = 'Type@file:function<handlerfile:handler' -> a family name for known-finding matching"""
     head, _, via = exc.partition("<")
     if head.startswith("IndexError@key_binding/bindings/vi.py:") and (
@@ -41,6 +41,8 @@ def family_of_exception(exc):
         return "exit-after-done"
     if head == "AssertionError@document.py:__init__" and via == "named_commands.py:yank":
         return "yank-lines-count-below-1"
+    if head == "AssertionError@document.py:__init__" and handler and ("[_search_next" in handler or "[_search_previous" in handler):
+        return "search-text-object-other-entry"
     if head == "AssertionError@buffer.py:_search":
         return "search-count-below-1"
     if head == "IndexError@key_binding/bindings/vi.py:_delete_before_multiple_cursors":
@@ -56,7 +58,7 @@ def judge(cfg, keys, r):
             out.append(({"clause": "hang"}, "key processing did not return within the watchdog", j))
             continue
         if exc:
-            out.append(({"clause": "exception", "family": family_of_exception(exc)},
+            out.append(({"clause": "exception", "family": family_of_exception(exc, a.get("handler"))},
                         "exception escapes the key processor: " + exc, j))
         for cl, tag in drv.oracle_state(a):
             if tag == "multicursor-range":
@@ -290,15 +292,24 @@ def impl_bops(case):
             code = 98
         except Exception:  # noqa
             code = 99
-        out.append([code, buf_state(b)])
+        try:
+            st_after = buf_state(b)
+            t1, c1 = b.text, b.cursor_position
+        except Exception as e:  # noqa  - the buffer cannot even be read any more
+            out.append([97, []])
+            trace.append((op, 97, t0, c0, "", 0, None, bool(b.read_only()), type(e).__name__))
+            break
+        out.append([code, st_after])
         sel = b.selection_state
-        trace.append((op, code, t0, c0, b.text, b.cursor_position, None if sel is None else sel.original_cursor_position,
+        trace.append((op, code, t0, c0, t1, c1, None if sel is None else sel.original_cursor_position,
                       bool(b.read_only())))
     return out, trace
 
 
-def oracle_bop(op, code, t0, c0, t1, c1, anchor, ro):
+def oracle_bop(op, code, t0, c0, t1, c1, anchor, ro, unreadable=None):
     """C05_buffer_inv / C05_buffer_errors_declared / exact Ok conditions, on the real Buffer."""
+    if code == 97:
+        return "after the operation the buffer state cannot be read (%s)" % unreadable
     if not (0 <= c1 <= len(t1)):
         return "cursor %d outside 0..%d" % (c1, len(t1))
     if anchor is not None and not (0 <= anchor <= len(t1)):
@@ -494,6 +505,12 @@ def gen_explore_cases(chk, all_keys):
     for cfg, keys in gen.search_family(thorough):
         cases.append((cfg, keys))
         dist["search_family"] += 1
+    for name, fam in (("ctrl_o_family", gen.ctrl_o_family), ("history_count_family", gen.history_count_family),
+                      ("search_history_family", gen.search_history_family)):
+        dist[name] = 0
+        for cfg, keys in fam(thorough):
+            cases.append((cfg, keys))
+            dist[name] += 1
     if thorough:
         for cfg, keys in gen.exhaustive_vi_thorough():
             cases.append((cfg, keys))
